@@ -39,6 +39,7 @@ def jobs(tier):
     for w in ((2,) if tier == "quick" else (2, 3)):
         for third in ("resize0", "resize1", "resize2", "shutdown_cancel", "shutdown_keep", "add"):
             js.append(dict(name="BUSY:W%d:%s" % (w, third), workers=w, prefix=["add_gated"] * w + [third], nops=1, P=1))
+    js = common.shard(js, "op1", len(OPS), lambda j: "prefix" not in j and (j["workers"] == 2 or j["first"].startswith("resize")))
     return js
 
 
